@@ -280,6 +280,14 @@ def merge_val(c, a, b, name="m"):
         return SeqV(z3.If(c, a.arr, b.arr), z3.If(c, a.n, b.n), a.elem)
     if isinstance(a, ClsV) and isinstance(b, ClsV) and a.name == b.name:
         return a
+    if type(a).__name__ == "CArr" and type(b).__name__ == "CArr":
+        if isinstance(a.arr, dict) != isinstance(b.arr, dict):
+            raise Unsupported("cannot merge struct and scalar C arrays")
+        if isinstance(a.arr, dict):
+            arr = {f_: z3.If(c, a.arr[f_], b.arr[f_]) for f_ in a.arr}
+        else:
+            arr = a.arr if a.arr.eq(b.arr) else z3.If(c, a.arr, b.arr)
+        return type(a)(arr, a.n if a.n.eq(b.n) else z3.If(c, a.n, b.n), a.off if a.off.eq(b.off) else z3.If(c, a.off, b.off), a.name)
     if isinstance(a, FuncV) and isinstance(b, FuncV) and a.name == b.name:
         return a
     if isinstance(a, (FuncV, ClsV, ChoiceV)) and isinstance(b, (FuncV, ClsV, ChoiceV)):
